@@ -847,11 +847,11 @@ Print Assumptions model_is_code_to_string_helpers.
 
 (* ---- THE MODEL IS THE CODE (parse side).  Gen/FormatterParseMethods.v is translated from /repo's formatter.py on every run (g73_formatter_parse.py):
    _get_parsed_value whole (the elif chain: two-digit year pivot 68 / 69, hh / h above 12, the Z / ZZ offset text with sign, hh / mm split and ":"; z against
-   pendulum.timezones(); X / x into parsed["timestamp"]), _get_parsed_locale_value (static unit / match keys, Do; the a / A branch is the named primitive
-   parse_meridiem: NOT translated), the loop of _get_parsed_values, and Formatter.parse as the recognised statement list whose re.sub callback is the translated
-   _get_parsed_values.  The hand models of Model/FormatterParse.v EQUAL the translation for every token, text, state, locale, format.  Primitives (Model/
-   FormatterParsePrims.v + the model's own): the regex engine mre / search_anchored / sub_matches, re_escape, the tokenisation of the escaped format, the pattern
-   assembly replace_token (= _replace_tokens) and check_parsed (= _check_parsed) stay hand-written + pinned by fingerprint (Proofs/C08SourceTie.v);
+   pendulum.timezones(); X / x into parsed["timestamp"]), _get_parsed_locale_value (static unit / match keys, Do; its a / A branch and _check_parsed: next block),
+   the loop of _get_parsed_values, and Formatter.parse as the recognised statement list whose re.sub callback is the translated _get_parsed_values and whose last
+   call is the translated _check_parsed.  The hand models of Model/FormatterParse.v EQUAL the translation for every token, text, state, locale, format.
+   Primitives (Model/FormatterParsePrims.v + the model's own): the regex engine mre / search_anchored / sub_matches, re_escape, the tokenisation of the escaped
+   format and the pattern assembly replace_token (= _replace_tokens) stay hand-written + pinned by fingerprint (Proofs/C08SourceTie.v);
    _PARSE_TOKENS / _REGEX_TOKENS / _LOCALIZABLE_TOKENS are generated data; Locale.match_translation is the model's match_translation (pinned). *)
 From PV Require Import Model.FormatterParsePrims Gen.FormatterParseMethods Proofs.FormatterParseMethodsFacts.
 
@@ -870,3 +870,60 @@ Print Assumptions model_is_code_get_parsed_values.
 Theorem model_is_code_from_format_parse : forall rs zones lname now time fmt, gen_parse rs zones lname now time fmt = parse rs zones lname now time fmt.
 Proof. exact gen_parse_eq. Qed.
 Print Assumptions model_is_code_from_format_parse.
+
+(* ---- THE MODEL IS THE CODE (_check_parsed and the a / A branch).  Formatter._check_parsed is translated whole on every run (g73_formatter_parse.py class CheckTr:
+   the dict `validated` = eight variables, parsed[...] = the option fields of the record, `is None` tests = matches): the timestamp-first path (microseconds read off
+   str(ts), helpers.local_time of the backend), the quarter loop, the year default, day of year through the ISO ordinal parser of the backend, day of week through
+   start_of("week").subtract(days=1).next(dow), the meridiem block (tuple test >= (13, 0, 0, 0), %= 12, += 12), the month / day defaults (`or 1`, `or now.month`), the
+   zero defaults of the time fields and tz.  check_parsed of Model/FormatterParse.v EQUALS it for every parsed record, now and backend flag; the a / A branch of
+   _get_parsed_locale_value (the two day-period translations, lower(), membership, index) equals the model's branch parse_meridiem.  Named primitives
+   (Model/FormatterParsePrims.v): mk_date, jan1 / jan1_of_now, quarter_loop (the while loop three additions deep), parse_ordinal, week_eve / next_weekday,
+   ts_has_point / ts_frac_us / ts_local_time, need_strs / py_lower / lower_all / index_of / nth_str, tuple_ge, or_else / or_z. *)
+Theorem model_is_code_check_parsed : forall rs p now, gen_check_parsed rs p now = check_parsed rs p now.
+Proof. exact gen_check_parsed_eq. Qed.
+Print Assumptions model_is_code_check_parsed.
+
+Theorem model_is_code_parse_meridiem : forall loc tok value p, gen_parse_meridiem loc tok value p = parse_meridiem loc tok value p.
+Proof. exact gen_parse_meridiem_eq. Qed.
+Print Assumptions model_is_code_parse_meridiem.
+
+(* ---- DAY-OF-YEAR TOKENS (DDDD / DDD).  format() renders the day of the year (tm_yday = days before the month + day); _check_parsed reads it back through
+   pendulum.parse('YYYY-DDD'), the ISO ordinal date of the active parser backend.  For EVERY valid date of every year and both backends the step returns the month and
+   the day — day 1, Feb 28 / Feb 29 / Mar 1 (59, 60, 61), every month end, day 365 and day 366 of a leap year included ... *)
+From PV Require Import Proofs.CalFacts Proofs.C08Doy Model.IsoParse Gen.RustParsingDatesGen.
+Theorem from_format_day_of_year_step_inverts_format : forall rs y m d, valid_dateb y m d = true -> doy_step rs y (yday_of y m d) = Ok (m, d).
+Proof. exact doy_step_inverts_yday. Qed.
+Print Assumptions from_format_day_of_year_step_inverts_format.
+
+(* ... a day number the year does not have (0, 366 of a common year, 367 ...) is refused with ParserError (a ValueError) ... *)
+Theorem from_format_day_of_year_step_rejects_missing_day : forall rs y doy, doy < 1 \/ days_in_year y < doy -> doy_step rs y doy = Raise E_ParserError.
+Proof. exact doy_step_rejects_missing_day. Qed.
+Print Assumptions from_format_day_of_year_step_rejects_missing_day.
+
+Theorem from_format_day_366 : forall rs y, doy_step rs y 366 = if is_leap y then Ok (12, 31) else Raise E_ParserError.
+Proof. exact doy_step_day_366. Qed.
+Print Assumptions from_format_day_366.
+
+(* ... hence _check_parsed on {year, day of year} — what 'YYYY DDDD' leaves — gives the date back, years 1000..9999 (time fields 0, no zone) ... *)
+Theorem from_format_inverts_year_and_day_of_year : forall rs now y m d, 1000 <= y <= 9999 -> valid_dateb y m d = true ->
+  check_parsed rs (parsed_y_doy y (yday_of y m d)) now = Ok (y, m, d, 0, 0, 0, 0, None).
+Proof. exact check_parsed_inverts_day_of_year. Qed.
+Print Assumptions from_format_inverts_year_and_day_of_year.
+
+(* ... with the day of the year alone the year is filled from `now` ... *)
+Theorem from_format_day_of_year_fills_year_from_now : forall rs now m d, 1000 <= n_year now <= 9999 -> valid_dateb (n_year now) m d = true ->
+  check_parsed rs (parsed_doy (yday_of (n_year now) m d)) now = Ok (n_year now, m, d, 0, 0, 0, 0, None).
+Proof. exact check_parsed_day_of_year_fills_year_from_now. Qed.
+Print Assumptions from_format_day_of_year_fills_year_from_now.
+
+Theorem from_format_rejects_missing_day_of_year : forall rs now y doy, 1000 <= y <= 9999 -> 0 <= doy -> (doy < 1 \/ days_in_year y < doy) ->
+  check_parsed rs (parsed_y_doy y doy) now = Raise E_ParserError.
+Proof. exact check_parsed_rejects_missing_day. Qed.
+Print Assumptions from_format_rejects_missing_day_of_year.
+
+(* ... and the compiled backend's step IS the code: the hand model doy_to_md_rs equals the TRANSLATION of rust/src/parsing.rs Parser::ordinal_to_ymd
+   (Gen/RustParsingDatesGen.v, regenerated on every run) read as (month, day) / ParserError, for every year and every day number the formatter can produce. *)
+Theorem model_is_code_rs_day_of_year_step : forall y doy, 1 <= y <= 100000 -> -100000 <= doy <= 100000 ->
+  doy_to_md_rs y doy = md_of_rs (gen_rsp_ordinal_to_ymd y doy false).
+Proof. exact doy_to_md_rs_is_code. Qed.
+Print Assumptions model_is_code_rs_day_of_year_step.
